@@ -16,6 +16,11 @@ theorem C08_tie_lattice (a b : AddrSet) :
     addrAnalysis.dom.union a b = Generated.addrUnion a b ∧ addrAnalysis.dom.inter a b = Generated.addrInter a b :=
   ⟨Tie.addr_union_tie a b, Tie.addr_inter_tie a b⟩
 
+/-- tie to today's source, leaf: the address set a comparison operand denotes is computed by the function translated on this
+    run from AddrFields._get_asserted_address -/
+theorem C08_tie_leaf (op : Op) (text : String) : assertedAddress op text = Generated.addrAsserted op text :=
+  Tie.addr_asserted_tie op text
+
 theorem C08_union_sound (a b : AddrSet) (v : String) :
     Addr.gamma a v ∨ Addr.gamma b v → Addr.gamma (addrUnion a b) v := Addr.union_sound a b v
 
